@@ -23,8 +23,8 @@ ID = "C06"
 LEVEL = "exploration"
 RULE = (
     "seeded edit histories (4-14 steps over {edit body, edit bullet, change kind/priority, add note with/without ZID, delete "
-    "note, cut-and-paste note to another page, add/delete/rename page, retitle section, edit header, advance day, db reindex, "
-    "db reindex <paths>}) on generated directories, ending with a plain reindex; then rebuild-and-compare + 12 sampled "
+    "note, cut-and-paste note to another page, add/delete/rename page, retitle section, edit header, break page (syntax error) / repair page, advance "
+    "day, db reindex, db reindex <paths>}; a reindex that meets a broken page is refused and the history goes on) on generated directories, ending with a plain reindex; then rebuild-and-compare + 12 sampled "
     "queries on both indexes. distinct = distinct multisets of step kinds; non-trivial = history contains >= 1 edit and >= 2 "
     "reindex runs (incl. the final one)."
 )
@@ -42,10 +42,10 @@ def setup_worker() -> None:
     import zorg.service.handlers as h
     import zorg.storage.sql._repo as r
 
-    harness.COUNTERS.watch("reindex_database", h.reindex_database)
-    harness.COUNTERS.watch("_check_for_modified_notes", h._check_for_modified_notes)
-    harness.COUNTERS.watch("remove_file_by_name", r.SQLRepo.remove_file_by_name)
-    harness.COUNTERS.watch("_delete_sections_and_blocks", r._delete_sections_and_blocks)
+    harness.COUNTERS.watch_attr(h, "reindex_database")
+    harness.COUNTERS.watch_attr(h, "_check_for_modified_notes")
+    harness.COUNTERS.watch_attr(r.SQLRepo, "remove_file_by_name")
+    harness.COUNTERS.watch_attr(r, "_delete_sections_and_blocks")
     TRACER.install()
 
 
@@ -77,7 +77,12 @@ def run_case(acc: Acc, seed: int, idx: int) -> None:
             acc.generator_invalid += 1
         return
     kinds = histrun.gen_history(rng, rng.randint(4, 14), allow)
+    if idx % 4 == 3:
+        # targeted: a reindex that is refused half-way (new / edited pages together with a page that
+        # currently has a syntax error), then the repair
+        kinds = kinds[: rng.randint(0, 4)] + rng.sample(["add_page", "break_page", "edit_body", "add_note", "add_page"], 4) + ["reindex"] + rng.sample(["repair_page", "edit_body", "advance_day"], 2) + ["reindex"] + kinds[-2:]
     run.run(kinds)
+    acc.count("refused_reindex_runs", run.refusals)
     case["history"] = run.log
     case["initial_files"] = run.initial_files
     acc.judged += 1
